@@ -119,7 +119,7 @@ pub fn oracle(case: &SpCase, res: &SpResult, soft: &mut Vec<(String, String)>) -
                         if !loss_seen {
                             // (one or two segments outstanding are always within "two segments", whatever their size: an MTU probe is one segment)
                             // (selectively acknowledged bytes are acknowledged bytes)
-                            let viol_c = states.iter().all(|s| obs.outstanding(s, k) > 2 * s.mss_now as u64 + s.acked_bytes + obs.sacked_bytes(s) && obs.segs.range((s.cum + 1)..=k).count() > 2);
+                            let viol_c = states.iter().all(|s| obs.outstanding(s, k) > 2 * s.mss_now as u64 + s.acked_bytes + obs.sacked_bytes(s) && obs.segs.range((s.cum + 1)..=k).filter(|(j, _)| !s.sacked.contains(j)).count() > 2);
                             if viol_c {
                                 let s = &states[0];
                                 { let d = format!("log #{}: before any loss event {} bytes are outstanding after sending seq {}, more than 2*mss ({}) + acknowledged bytes ({} cumulatively, {} selectively)", r.idx, obs.outstanding(s, k), p.seq, s.mss_now, s.acked_bytes, obs.sacked_bytes(s)); if f9_possible { if soft.len() < 4 { soft.push((F9_SIG.to_string(), d)); } } else { return (Some((sig("slow-start-exceeded"), d)), vec![], false, 0); } }
